@@ -203,7 +203,6 @@ def main() -> int:
     # interleave brokers so that a budget cut keeps all of them represented
     specs.sort(key=lambda s: (s["idx"], s["broker"]))
     budget = args.budget or getattr(prop, "BUDGET", {"quick": 55, "thorough": 900})[tier]
-    min_frac = 0.2
 
     from concurrent.futures import ProcessPoolExecutor, as_completed, wait, FIRST_COMPLETED
     import multiprocessing as mp
@@ -332,7 +331,9 @@ def finish(prop, pid, tier, args, agg, errors, wall, planned, cut) -> int:
     if agg["evals"] == 0:
         print("HARNESS-ERROR: nothing was executed", file=sys.stderr)
         rc = rc or 2
-    if cut and agg["tasks"] < 0.2 * planned:
+    # a loaded machine completes fewer tasks within the wall budget: still a valid (smaller) exploration, the evidence
+    # says so (cut_by_wall_budget); only a run that got almost nowhere is a harness error
+    if cut and agg["tasks"] < 0.04 * planned:
         print(f"HARNESS-ERROR: wall budget cut the run at {agg['tasks']}/{planned} tasks", file=sys.stderr)
         rc = rc or 2
     if not args.no_evidence:
